@@ -741,10 +741,10 @@ def run_rfcomm_case(ctx, case, record=True) -> None:
     col = exec_rfcomm(case)
     if col.fails:
         other = dict(case, carrier='le' if case['carrier'] == 'classic' else 'classic')
-        ocol = exec_rfcomm(other)
-        osigs = {s for s, _ in ocol.fails}
+        # a case that fails on one carrier and holds on the other is reported with the carrier
+        clean_elsewhere = not exec_rfcomm(other).fails
         for sig, what in col.fails:
-            if sig not in osigs:
+            if clean_elsewhere:
                 sig = f'{sig}@{case["carrier"]}-only'
             errs = '; '.join(sorted({repr(e.get('exception')) for e in getattr(col, 'loop_errors', [])}))[:300]
             ctx.fail(sig, what + (f' [loop errors: {errs}]' if errs else ''), case)
@@ -1219,9 +1219,9 @@ def run_hfp_case(ctx, case, record=True) -> None:
     col = exec_hfp(case)
     if col.fails:
         other = dict(case, carrier='le' if case['carrier'] == 'classic' else 'classic')
-        osigs = {s for s, _ in exec_hfp(other).fails}
+        clean_elsewhere = not exec_hfp(other).fails
         for sig, what in col.fails:
-            if sig not in osigs:
+            if clean_elsewhere:
                 sig = f'{sig}@{case["carrier"]}-only'
             ctx.fail(sig, what, case)
     if not record:
